@@ -170,6 +170,9 @@ static void startup_case(const Args& a, long i, Agg& agg) {
     else if (!err.empty()) { if (!tri) c.viol("startup:admissible_input_rejected", "simulation_initializer(parameter file) threw for a triangulated input with perform_initial_triangulation = 0: " + err.substr(0, 300)); else agg.bin("startup:triangulation_failed_cleanly"); }
     else { compare(d, ro, c, agg, false);
         if (c.v != "viol" && cells.size() != (size_t)ncell) c.viol("startup:cell_count", "the input file holds " + std::to_string(ncell) + " cells, the initializer returned " + std::to_string(cells.size()));
+        // the cell_type_id of the mesh file is the position of the cell type in the parameter file: every cell must carry the parameters of that entry
+        for (size_t k = 0; k < cells.size() && c.v != "viol"; k++) { const std::string want = fld(d.cells[(size_t)tids[k]].f, "cell_type_name").sval, got = cells[k]->get_cell_type() ? cells[k]->get_cell_type()->name_ : std::string("(none)");
+            if (got != want) c.viol("startup:cell_received_another_cell_type", "cell " + std::to_string(k) + " of the mesh file has cell_type_id " + std::to_string(tids[k]) + ", i.e. the cell type '" + want + "' at that position of the parameter file, but carries the parameters of '" + got + "'"); else agg.bin("startup:cell_types_checked"); }
         for (size_t k = 0; k < cells.size() && c.v != "viol"; k++) { const size_t nn = cells[k]->get_nb_of_nodes(), nf = cells[k]->get_nb_of_faces();
             if (!tri) { bool same = nn == ms[k].P.size() && nf == ms[k].T.size(); double dev = 0;
                 if (same) { const auto& nl = cell_tester::nodes(*cells[k]); for (size_t q = 0; q < nl.size(); q++) dev = std::max({dev, std::fabs(nl[q].pos().dx() - ms[k].P[q][0]), std::fabs(nl[q].pos().dy() - ms[k].P[q][1]), std::fabs(nl[q].pos().dz() - ms[k].P[q][2])}); }
